@@ -45,7 +45,9 @@ struct CalverCase {
     preset: usize,
     pep440: bool,
     /// 0: --bumped-timestamp on source none; 1: stdin object with only last_timestamp;
-    /// 2: stdin object with both (bumped must win)
+    /// 2: stdin object with both (bumped must win); 3: as 1 plus --tag-version (overriding the tag's
+    /// version keeps the tag's time); 4: as 2 plus --no-bump-context (commit time dropped: the tag
+    /// time is what is left); 5: as 4 plus --tag-version
     mode: u8,
     other_ts: u64,
 }
@@ -74,7 +76,13 @@ fn check_calver(c: &CalverCase, cx: &mut Cx) -> Res {
             c.ts,
         ),
         1 => (cli::version(&cli::sv(&["--source", "stdin", "--schema", preset, "--output-format", fmt]), Some(&stdin_object(None, Some(c.ts)))), c.ts),
-        _ => (cli::version(&cli::sv(&["--source", "stdin", "--schema", preset, "--output-format", fmt]), Some(&stdin_object(Some(c.ts), Some(c.other_ts)))), c.ts),
+        2 => (cli::version(&cli::sv(&["--source", "stdin", "--schema", preset, "--output-format", fmt]), Some(&stdin_object(Some(c.ts), Some(c.other_ts)))), c.ts),
+        3 => (cli::version(&cli::sv(&["--source", "stdin", "--tag-version", "4.5.6", "--schema", preset, "--output-format", fmt]), Some(&stdin_object(None, Some(c.ts)))), c.ts),
+        4 => (cli::version(&cli::sv(&["--source", "stdin", "--no-bump-context", "--schema", preset, "--output-format", fmt]), Some(&stdin_object(Some(c.ts), Some(c.other_ts)))), c.other_ts),
+        _ => (
+            cli::version(&cli::sv(&["--source", "stdin", "--no-bump-context", "--tag-version", "4.5.6-rc.1", "--schema", preset, "--output-format", fmt]), Some(&stdin_object(Some(c.ts), Some(c.other_ts)))),
+            c.other_ts,
+        ),
     };
     let out = match &run {
         cli::Run::Ok(s) => s.clone(),
@@ -168,7 +176,7 @@ pub fn property() -> Property {
     let calver = RandomSub::<CalverCase>::new(
         "cli-calver",
         (20_000, 400_000),
-        |_| (instants(), 0usize..11, any::<bool>(), 0u8..3, instants()).prop_map(|(ts, preset, pep440, mode, other_ts)| CalverCase { ts, preset, pep440, mode, other_ts }).boxed(),
+        |_| (instants(), 0usize..11, any::<bool>(), 0u8..6, instants()).prop_map(|(ts, preset, pep440, mode, other_ts)| CalverCase { ts, preset, pep440, mode, other_ts }).boxed(),
         check_calver,
     );
     let schema_ts = EnumSub::<SchemaTsCase>::new(
